@@ -1,21 +1,22 @@
 SPECIFICATION GenSpec
 CONSTANTS
   Names = {"alice"}
-  Pws = {"Secret1", "LONG"}
+  Pws = {"Secret1", "LONG", "P72"}
   LongPws = {"LONG"}
+  Pw72 = {"P72"}
   ExtraCands = {"", "secret1", "SECRET1", "Secret1 ", "wrong"}
   PermSets = {{"ego.logon"}, {"ego.root"}, {"other"}}
   InitFmts = {"sha", "plain"}
   InitCosts = {4}
   Spellings = {"exact", "upper", "mixed", "padded", "ghost", "empty"}
-  CandKinds = {"lit", "stored", "cyc", "braced", "hashof"}
+  CandKinds = {"lit", "stored", "cyc", "braced", "hashof", "ext"}
   MaxVer = 2
   Impl = "code"
   Depth = 1
   Budget = 1000
   Mode = "table"
   TableSp = {"exact", "upper", "mixed", "padded"}
-  TableKinds = {"stored", "cyc", "braced", "hashof"}
+  TableKinds = {"stored", "cyc", "braced", "hashof", "ext"}
   TableLits = {"", "secret1", "SECRET1", "Secret1 ", "wrong", "LONG"}
 INVARIANTS Emit
 CHECK_DEADLOCK FALSE
